@@ -748,6 +748,13 @@ EGLPNUM_TYPENAME_QSLIB_INTERFACE EGLPNUM_TYPENAME_QSdata *EGLPNUM_TYPENAME_QScop
 	p2->factorok = 0;
 	p2->simplex_display = p->simplex_display;
 	p2->simplex_scaling = p->simplex_scaling;
+	/* the remaining parameters settable through QSset_param* */
+	p2->lp->maxiter = p->lp->maxiter;
+	p2->lp->maxtime = p->lp->maxtime;
+	rval = EGLPNUM_TYPENAME_QSset_param_EGlpNum (p2, QS_PARAM_OBJULIM, p->uobjlim);
+	CHECKRVALG (rval, CLEANUP);
+	rval = EGLPNUM_TYPENAME_QSset_param_EGlpNum (p2, QS_PARAM_OBJLLIM, p->lobjlim);
+	CHECKRVALG (rval, CLEANUP);
 	/* copy the pricing settings only: the norm arrays, partial pricing buckets
 	 * and the heap hanging off the pricing structure belong to p and must not
 	 * be shared with the copy */
